@@ -67,7 +67,8 @@ func (e *enum) Run(i int64, r *vf.Rec) {
 type plan struct {
 	root  []int
 	depth int
-	wide  bool // long last axis, Coarse enumeration (crosses the size thresholds a fast path may have); float64 and int32 only
+	wide  bool
+	wd    int // write footprints only for chains shorter than this (0 = all) // long last axis, Coarse enumeration (crosses the size thresholds a fast path may have); float64 and int32 only
 }
 
 func jobs(id, tier string) []job {
@@ -79,38 +80,38 @@ func jobs(id, tier string) []job {
 	case "C01":
 		opt.Writes = true
 		if tier == "quick" {
-			plans = []plan{{[]int{7}, 8, false}, {[]int{3, 4}, 8, false}, {[]int{2, 3, 4}, 8, false}, {[]int{2, 2, 2, 3}, 8, false}, {[]int{4, 5}, 8, false}}
+			plans = []plan{{[]int{7}, 8, false, 0}, {[]int{3, 4}, 8, false, 0}, {[]int{2, 3, 4}, 8, false, 0}, {[]int{2, 2, 2, 3}, 8, false, 0}, {[]int{4, 5}, 8, false, 0}}
 		} else {
-			plans = []plan{{[]int{7}, 8, false}, {[]int{3, 4}, 8, false}, {[]int{2, 3, 4}, 8, false}, {[]int{2, 2, 2, 3}, 8, false}, {[]int{10}, 8, false}, {[]int{4, 5}, 8, false}, {[]int{3, 3, 3}, 8, false}}
+			plans = []plan{{[]int{7}, 8, false, 0}, {[]int{3, 4}, 8, false, 0}, {[]int{2, 3, 4}, 8, false, 0}, {[]int{2, 2, 2, 3}, 8, false, 0}, {[]int{10}, 8, false, 0}, {[]int{4, 5}, 8, false, 0}, {[]int{3, 3, 3}, 8, false, 0}}
 		}
 	case "C02":
 		opt.Reshape, opt.BulkPairs, opt.Writes = true, true, true
 		if tier == "quick" {
-			plans = []plan{{[]int{6}, 2, false}, {[]int{3, 4}, 2, false}, {[]int{2, 3, 2}, 1, false}}
+			plans = []plan{{[]int{6}, 2, false, 0}, {[]int{3, 4}, 2, false, 0}, {[]int{2, 3, 2}, 1, false, 0}}
 		} else {
-			plans = []plan{{[]int{6}, 4, false}, {[]int{3, 4}, 3, false}, {[]int{2, 3, 4}, 2, false}, {[]int{2, 2, 2, 3}, 1, false}}
+			plans = []plan{{[]int{6}, 4, false, 0}, {[]int{3, 4}, 3, false, 0}, {[]int{2, 3, 4}, 2, false, 0}, {[]int{2, 2, 2, 3}, 1, false, 0}}
 		}
 	case "C03":
 		opt.Reshape, opt.BulkPairs, opt.Writes = true, true, true
 		backends = map[string]bool{"c": true}
 		if tier == "quick" {
-			plans = []plan{{[]int{6}, 2, false}, {[]int{3, 4}, 2, false}, {[]int{2, 3, 2}, 1, false}}
+			plans = []plan{{[]int{6}, 2, false, 0}, {[]int{3, 4}, 2, false, 0}, {[]int{2, 3, 2}, 1, false, 0}}
 		} else {
-			plans = []plan{{[]int{6}, 3, false}, {[]int{3, 4}, 2, false}, {[]int{2, 3, 4}, 1, false}, {[]int{2, 2, 2, 3}, 1, false}}
+			plans = []plan{{[]int{6}, 3, false, 0}, {[]int{3, 4}, 2, false, 0}, {[]int{2, 3, 4}, 1, false, 0}, {[]int{2, 2, 2, 3}, 1, false, 0}}
 		}
 	}
 	switch id {
 	case "C01":
 		if tier == "quick" {
-			plans = append(plans, plan{[]int{2, 3, 70}, 0, true}, plan{[]int{3, 40}, 0, true})
+			plans = append(plans, plan{[]int{2, 3, 70}, 0, true, 0}, plan{[]int{3, 40}, 0, true, 0}, plan{[]int{2, 130}, 1, true, 0})
 		} else {
-			plans = append(plans, plan{[]int{2, 3, 70}, 0, true}, plan{[]int{3, 40}, 0, true}, plan{[]int{2, 2, 35}, 1, true}) // [2,3,70] to depth 1 is 1680 states x ~5000 writes each: more than one case may take
+			plans = append(plans, plan{[]int{2, 3, 70}, 0, true, 0}, plan{[]int{3, 40}, 1, true, 0}, plan{[]int{2, 2, 35}, 1, true, 0}, plan{[]int{2, 130}, 1, true, 0}) // [2,3,70] to depth 1 is 1680 states x ~5000 writes each: more than one case may take
 		}
 	default:
 		if tier == "quick" {
-			plans = append(plans, plan{[]int{2, 2, 35}, 0, true}, plan{[]int{66}, 0, true})
+			plans = append(plans, plan{[]int{2, 2, 35}, 1, true, 1}, plan{[]int{66}, 0, true, 0}, plan{[]int{2, 130}, 1, true, 0}, plan{[]int{1024}, 0, true, 0}, plan{[]int{12, 365}, 0, true, 0}) // [1024] and [12,365] (4380 elements): whole-array operations that work in blocks; [2,2,35]: writes at the root only, reads and bulk observations on every direct slice
 		} else {
-			plans = append(plans, plan{[]int{2, 2, 35}, 0, true}, plan{[]int{66}, 1, true})
+			plans = append(plans, plan{[]int{2, 2, 35}, 1, true, 1}, plan{[]int{66}, 1, true, 0}, plan{[]int{2, 130}, 1, true, 0}, plan{[]int{3, 4, 40}, 1, true, 1}, plan{[]int{1024}, 0, true, 0}, plan{[]int{12, 365}, 0, true, 0}, plan{[]int{4096}, 0, true, 0})
 		}
 	}
 	for _, p := range plans {
@@ -124,7 +125,8 @@ func jobs(id, tier string) []job {
 			o := opt
 			o.MaxDepth = p.depth
 			o.Coarse = p.wide
-			if tier == "thorough" && id == "C01" && len(p.root) <= 2 && rn.Type == "float64" {
+			o.WriteDepth = p.wd
+			if tier == "thorough" && id == "C01" && len(p.root) <= 2 && rn.Type == "float64" && !p.wide {
 				o.WritePairs = true
 			}
 			if id == "C01" && (rn.Type == "float64" || rn.Type == "int32" || tier == "thorough") {
